@@ -80,6 +80,11 @@ CLAIMED = {
    note="Assumed: TriggerClusterHostUpdate replaces the host set (ghost record), ConvertEndpointsConfig is a function of the locality message, SetClusterConfig/SetHosts/refreshHostsConfig ghost effects (trusted contracts on in-repo functions). Not covered - and not decidable by contracts within reach: equivalence of the live serving state with a fresh MOSN started from the dump, atomic swaps under concurrent requests, routers/listeners.",
    technique="contract-based deductive verification (WP over go/ssa, SMT) with ghost update records",
    design="5/C12"),
+ "C15": dict(
+   text="Proof level on the kernel functions: HostMatches(kvs, host) holds iff the host's metadata contains every pair of kvs (unbounded loop invariant, empty frame); ExtractSubsetMetadata yields one pair per key iff the host has every key and the empty list otherwise; the pre-indexed builder's host cache answers only for an equal index set (sparseEntry.Equals implies set equality); the subset tier yields no host when no active subset matches; with no fallback subset (policy 'none') and no context no host is returned.",
+   note="Assumed: Host.Metadata() is a pure read (spec function), intsets.Sparse.Equals as an abstract equality. Not covered: the trie walk of findSubset for arbitrary criteria, entry creation (createSubsets/CreateSubset use for-each callbacks), the global observational equivalence of the two builders, any-endpoint/default-subset fallback contents.",
+   technique="contract-based deductive verification (WP over go/ssa, SMT)",
+   design="5/C15"),
 }
 NA = {
  "C11": "quantifies over the arrival time of a signal relative to in-flight requests across two processes (fd passing, drain timers): crash points and schedules of the whole runtime; no function whose pre/postcondition states it (DESIGN.md section 6)",
